@@ -86,3 +86,19 @@ def scratch_dir() -> Path:
         _scratch = Path(tempfile.mkdtemp(prefix="vf_", dir=base))
         atexit.register(lambda: shutil.rmtree(_scratch, ignore_errors=True))
     return _scratch
+
+
+def harness_fault(e: BaseException) -> bool:
+    """True when the exception was raised by harness code itself (innermost frame under /verif/vf):
+    that is a bug of the machinery - inconclusive - never an observation about the library."""
+    tb = e.__traceback__
+    last = None
+    while tb is not None:
+        last = tb
+        tb = tb.tb_next
+    if last is None:
+        return False
+    fn = last.tb_frame.f_code.co_filename
+    return fn.startswith(str(VERIF / "vf")) and isinstance(e, (NameError, AttributeError, TypeError, KeyError,
+                                                              IndexError, UnboundLocalError, AssertionError,
+                                                              ZeroDivisionError, ImportError))
